@@ -106,17 +106,24 @@ def r1_coverage(ctx):
     # the guard of the format validation as a truth table over (string node?, has a format?)
     from ..flowexpr import truth as _truth
     table = {}
+    guard_t, match_in_test = None, False
     if len(fval) == 1:
+        # the match itself may be a conjunct of the guard (`if is_str and has_format and not re.match(..): raise`)
+        tt = fval[0].test
+        conj = list(tt.values) if isinstance(tt, ast.BoolOp) and isinstance(tt.op, ast.And) else [tt]
+        rest = [c for c in conj if not any(isinstance(x, ast.Call) and dotted_name(x.func) == "re.match" for x in ast.walk(c))]
+        match_in_test = len(rest) < len(conj)
+        guard_t = rest[0] if len(rest) == 1 else (ast.BoolOp(op=ast.And(), values=rest) if rest else ast.Constant(value=True))
         for is_str in (True, False):
             for has in (True, False):
-                table[(is_str, has)] = _truth(fval[0].test, lambda e, _s=is_str, _h=has: {"node.keyword == 'str'": _s, "node.keyword != 'str'": not _s,
+                table[(is_str, has)] = _truth(guard_t, lambda e, _s=is_str, _h=has: {"node.keyword == 'str'": _s, "node.keyword != 'str'": not _s,
                                                                                            "node.format": _h, "node.format is not None": _h, "node.format is None": not _h,
                                                                                            "isinstance(node, StringNode)": _s}.get(norm(e)))
     if len(fatt) != 1 or len(fval) != 1 or any(v is None for v in table.values()):
         ctx.unrecognised(DIP, "DIP.parse", "format: attachable to strings only, validated for every string that has one",
                          f"attach guard {fatt} / validation guard {[norm(i.test) for i in fval]} not interpreted")
     else:
-        runs_in_body = any(isinstance(c, ast.Call) and dotted_name(c.func) == "re.match" for x in fval[0].body for c in ast.walk(x))
+        runs_in_body = match_in_test or any(isinstance(c, ast.Call) and dotted_name(c.func) == "re.match" for x in fval[0].body for c in ast.walk(x))
         want = {(True, True): runs_in_body, (True, False): not runs_in_body, (False, True): not runs_in_body, (False, False): not runs_in_body}
         ctx.check(fatt[0].endswith(".keyword != 'str'") and table == want, DIP, "DIP.parse", "format: attachable to strings only, validated for every string that has one",
                   detail={"attach": fatt, "validate": [norm(i.test) for i in fval], "runs for (string, has format)": {str(k): v for k, v in table.items()}},
@@ -449,6 +456,13 @@ def r8_property_target(ctx):
     stores = [(i, x) for i, s_ in enumerate(body) for x in ast.walk(s_) if isinstance(x, ast.Assign) and any(
         isinstance(t, ast.Attribute) and t.attr == "cursor" for t in x.targets)]
     idx = {norm(x.slice) for s_ in body for x in ast.walk(s_) if isinstance(x, ast.Subscript) and norm(x.value) == "target.nodes"}
+    # ... or the index of an enumerate over the node list whose element receives the modification
+    for lp in [l for l in ast.walk(fn) if isinstance(l, ast.For)]:
+        it = norm(lp.iter)
+        if it in ("enumerate(target.nodes)", "enumerate(target.nodes.nodes)") and isinstance(lp.target, ast.Tuple) and len(lp.target.elts) == 2 \
+                and all(isinstance(e_, ast.Name) for e_ in lp.target.elts) \
+                and any(isinstance(c_, ast.Call) and norm(c_.func) == f"{lp.target.elts[1].id}.modify_value" for c_ in ast.walk(lp)):
+            idx.add(lp.target.elts[0].id)
     if mi is None:
         ctx.form(False, DIP, "DIP.parse", what, detail="the modification call was not found in the branch of an existing node")
     elif stores:
